@@ -258,11 +258,28 @@ theorem cancelled_later_by_timer_repaired :
       .tick]).log.reverse =
       [.poll (some 0) [(-1, 1)] (some 0), .g, .cb 0 3 .none, .a, .cb 1 2 .none, .cb 2 3 .none, .a] := by decide +kernel
 
+def cbLogOf (st : St) : List Ev := st.log.reverse.filter fun e => match e with | .cb .. => true | _ => false
+
 def probePreExited : List Op := [.act (.exit 1000000000 0), .act (.process 0 1000000000 6), .destroy]
 
 /-- A watch on a child that has already exited is linked nowhere: no notification at destruction, leaked. -/
 theorem process_preexited_counterexample :
     (runOps .shipped probePreExited).log = [] ∧ leaked (runOps .shipped probePreExited) = [2] := by decide +kernel
+
+/-- Repaired (`tickit_watch_process` links the watch and remembers its deferred callback in `process.notify`):
+    destruction notifies it, nothing is leaked … -/
+theorem process_preexited_repaired :
+    (runOps .repaired probePreExited).log = [.cb 0 6 .none] ∧ leaked (runOps .repaired probePreExited) = [] := by decide +kernel
+
+/-- … it fires once, from the next iteration, and is released; and a cancel before that takes effect: the UNBIND
+    notification it asked for, no invocation, nothing leaked. -/
+theorem process_preexited_cancel_repaired :
+    cbLogOf (runOps .repaired [.act (.exit 1000000000 7), .act (.process 0 1000000000 6), .tick]) = [.cb 0 1 (.proc 1000000000 7)] ∧
+    leaked (runOps .repaired [.act (.exit 1000000000 7), .act (.process 0 1000000000 6), .tick]) = [] ∧
+    (runOps .repaired [.act (.exit 1000000000 7), .act (.process 0 1000000000 6), .act (.cancel 0)]).log = [.cb 0 2 .none] ∧
+    cbLogOf (runOps .repaired [.act (.exit 1000000000 7), .act (.process 0 1000000000 6), .act (.cancel 0), .tick]) = [] ∧
+    leaked (runOps .repaired [.act (.exit 1000000000 7), .act (.process 0 1000000000 6), .act (.cancel 0), .tick]) = [] := by
+  decide +kernel
 
 def probeSigchldNext : List Op :=
   [.beh ⟨0, 0, [.cancel 1]⟩, .act (.process 0 1000000000 0), .act (.process 1 1000000001 0),
